@@ -557,6 +557,50 @@ func (e Engine) Run(prop string, t *core.Tape, st *core.Stats) *core.Violation {
 	maxOps := t.Bound(40, 120)
 	stop := t.Range(3, maxOps)
 	checkedRel := false
+	// in some runs the queries (lookups, Check) are issued only every k-th edit, so
+	// that state kept between queries is not refreshed by the checker itself
+	every := []int{1, 1, 1, 2, 3, 5}[t.Draw(6)]
+
+	// observe issues the property's queries on the current state; stop is true
+	// when the run is over (a violation, or a listed finding)
+	observe := func() (v *core.Violation, stop bool) {
+		switch prop {
+		case "C14":
+			if msg := invariants(h.s); msg != "" {
+				v := h.viol("well-formed", "Schema", "after-edit", "%s\n    schema: %s", msg, content(h.s))
+				if st.Fail(v) {
+					return v, true
+				}
+
+				return nil, true
+			}
+
+			if v := h.lookups(); v != nil {
+				if st.Fail(v) {
+					return v, true
+				}
+
+				return nil, true
+			}
+
+			st.State(core.HashString(content(h.s)))
+		case "C15":
+			v, hadRel := h.checkC15()
+			if v != nil {
+				if st.Fail(v) {
+					return v, true
+				}
+
+				return nil, true
+			}
+
+			checkedRel = checkedRel || hadRel
+		}
+
+		return nil, false
+	}
+
+	unobserved := false
 
 	for i := 0; i < maxOps && t.More(stop); i++ {
 		v, aborted := h.step()
@@ -565,42 +609,27 @@ func (e Engine) Run(prop string, t *core.Tape, st *core.Stats) *core.Violation {
 		}
 
 		if aborted {
+			unobserved = false
 			break
 		}
 
 		st.Steps++
+		unobserved = true
 
-		switch prop {
-		case "C14":
-			if msg := invariants(h.s); msg != "" {
-				v := h.viol("well-formed", "Schema", "after-edit", "%s\n    schema: %s", msg, content(h.s))
-				if st.Fail(v) {
-					return v
-				}
+		if h.steps%every != 0 {
+			continue
+		}
 
-				return nil
-			}
+		unobserved = false
 
-			if v := h.lookups(); v != nil {
-				if st.Fail(v) {
-					return v
-				}
+		if v, stop := observe(); stop {
+			return v
+		}
+	}
 
-				return nil
-			}
-
-			st.State(core.HashString(content(h.s)))
-		case "C15":
-			v, hadRel := h.checkC15()
-			if v != nil {
-				if st.Fail(v) {
-					return v
-				}
-
-				return nil
-			}
-
-			checkedRel = checkedRel || hadRel
+	if unobserved {
+		if v, stop := observe(); stop {
+			return v
 		}
 	}
 
